@@ -921,6 +921,7 @@ void LeaveOneOut(MODELINPUT *input,
               }
             }
 
+            VERIF_CV("loo_create", th, model, 0, NULL);
             if(algo == _PLS_ || algo == _PLS_DA_)
               pthread_create(&threads[th], NULL, PLSLOOModel_, (void*) &loo_arg[th]);
             else if(algo == _MLR_)
@@ -943,6 +944,7 @@ void LeaveOneOut(MODELINPUT *input,
         for(th = 0; th < nthreads; th++){
           if(th+model < mx->row){
             pthread_join(threads[th], NULL);
+            VERIF_CV("loo_join", th, model, 0, NULL);
           }
           else{
             continue;
@@ -952,6 +954,7 @@ void LeaveOneOut(MODELINPUT *input,
         /*Collapse the threads output*/
         for(th = 0; th < nthreads; th++){
           if(th+model < mx->row){
+            VERIF_CV("loo_merge", th, model, 0, NULL);
             for(j = 0; j < loo_arg[th].y_test_predicted->col; j++){
               loopredictedy->data[model+th][j] = loo_arg[th].y_test_predicted->data[0][j];
             }
@@ -1105,6 +1108,7 @@ void KFoldCV(MODELINPUT *input,
       indx->data[g] += 1;
     }
     DelUIVector(&indx);
+    VERIF_CV("kf_groups", gmax, objgmax, groups->size, gid);
 
 
     /* each thread have its argument type */
@@ -1142,6 +1146,7 @@ void KFoldCV(MODELINPUT *input,
                                          kcv_arg[th].x_test,
                                          kcv_arg[th].y_test);
 
+            VERIF_CV("kf_create", th, it, 0, NULL);
             if(algo == _PLS_ || algo == _PLS_DA_){
               pthread_create(&threads[th], NULL, PLSLOOModel_, (void*) &kcv_arg[th]);
             }
@@ -1166,6 +1171,7 @@ void KFoldCV(MODELINPUT *input,
           }
           else{
             pthread_join(threads[th], NULL);
+            VERIF_CV("kf_join", th, it, 0, NULL);
           }
         }
 
@@ -1176,6 +1182,7 @@ void KFoldCV(MODELINPUT *input,
             break;
           }
           else{
+            VERIF_CV("kf_merge", th, it, 0, NULL);
             for(i = 0; i < kcv_arg[th].y_test_predicted->row; i++){
               int id = (int)gid->data[th+it][i];
               for(j = 0; j < kcv_arg[th].y_test_predicted->col; j++){
